@@ -45,8 +45,10 @@ impl<T> Slab<T> {
         ensures *r == old(self)@[k], final(self)@ == old(self)@.insert(k, *final(r)),
     { unimplemented!() }
 }
+pub uninterp spec fn spec_duration_to_tick(elapsed: Duration, tick_ms: u64) -> u64;
+// rounding of a Duration to ticks (saturating u128 -> u64 arithmetic on Duration::as_millis, outside Verus): a pure function
 #[verifier::external_body]
-pub fn duration_to_tick(elapsed: Duration, tick_ms: u64) -> u64 { unimplemented!() }
+pub fn duration_to_tick(elapsed: Duration, tick_ms: u64) -> (r: u64) ensures r == spec_duration_to_tick(elapsed, tick_ms) { unimplemented!() }
 #[verifier::external_body]
 pub fn verif_umin(a: u64, b: u64) -> (r: u64) ensures r == (if a <= b { a } else { b }) { unimplemented!() }
 
@@ -132,6 +134,20 @@ impl<T> Timer<T> {
     //@        && final(self).entries@[r.token.0].links.tick == tick && final(self).entries@[r.token.0].state == state, // [armed-under-a-fresh-token-at-the-tick-asked]
     //@    final(self).wheel@[final(self).spec_slot(tick)].next_tick <= tick,                          // [slot-wakes-no-later-than-the-new-timeout]
     //@    final(self).entries@.dom() =~= old(self).entries@.dom().insert(r.token.0),                  // [nothing-else-armed-or-lost]
+    //@    final(self).tick == old(self).tick && final(self).mask == old(self).mask && final(self).tick_ms == old(self).tick_ms, // [clock-untouched]
+    //@end
+
+    //@fn lib/src/timer.rs Timer::set_timeout_at
+    //@  ret r
+    //@  requires
+    //@    old(self).geometry() && old(self).wakeup_sound() && old(self).tick < u64::MAX,
+    //@    forall|s: int| 0 <= s < old(self).wheel@.len() ==> ((#[trigger] old(self).wheel@[s]).head == EMPTY || old(self).entries@.contains_key(old(self).wheel@[s].head.0)),
+    //@  ensures
+    //@    final(self).geometry() && final(self).wakeup_sound(),                                       // [arming-keeps-the-wake-up-sound]
+    //@    r.tick > old(self).tick && r.tick >= spec_duration_to_tick(delay_from_start, old(self).tick_ms), // [never-armed-in-the-past-nor-earlier-than-asked]
+    //@    r.tick == spec_duration_to_tick(delay_from_start, old(self).tick_ms) || r.tick == old(self).tick + 1, // [armed-at-the-tick-asked-or-the-next-tick]
+    //@    final(self).entries@.contains_key(r.token.0) && final(self).entries@[r.token.0].links.tick == r.tick
+    //@        && final(self).wheel@[final(self).spec_slot(r.tick)].next_tick <= r.tick,              // [the-new-timeout-will-wake-the-loop-in-time]
     //@end
 
     //@fn lib/src/timer.rs Timer::cancel_timeout
